@@ -373,6 +373,10 @@ struct Interp
 	std::unique_ptr<IHeter> impl;
 	ListModel lists[kKeys][kMaxProtos];
 	std::vector<int> nodeKey, nodeProto;
+	// re-entrancy: a listener may enqueue one event each time it runs (while fuel lasts); nodeEnq[cb] = -1 or argument kind | key << 8
+	std::vector<int> nodeEnq;
+	int enqFuel = 4;
+	bool enqueuedDuringProcessIfWithLeftovers = false;
 	std::deque<MEv> pending;
 	std::vector<PFrame> frames;
 	int nextSerial = 1;
@@ -422,10 +426,28 @@ struct Interp
 			}
 			const MEv & e = f.batch[(size_t)f.current];
 			int due = f.inv.due(lists[e.key][e.proto]);
-			if(due == cb && s == e.args) { f.inv.advance(due); log << " >n" << cb; return; }
+			if(due == cb && s == e.args) { f.inv.advance(due); log << " >n" << cb; reenter(cb); return; }
 			if(due < 0) { closeCurrent(f); if(failed) return; continue; } // that event had no (more) listeners: move on
 			fail("heter.dispatch.listener", "C14", "event #" + std::to_string(e.serial) + " prototype " + std::to_string(e.proto) + " args " + show(e.args) + ": listener n" + std::to_string(cb) + " (bound to prototype " + std::to_string(nodeProto[cb]) + ", key " + std::to_string(nodeKey[cb]) + ") called with " + show(s) + ", due is n" + std::to_string(due));
 			return;
+		}
+	}
+	// the listener's own action: enqueue an event from inside the dispatch. It joins the queue behind everything that is
+	// pending, including whatever the running processIf puts back (those events stay "in place", i.e. ahead of it)
+	void reenter(int cb) {
+		if((size_t)cb >= nodeEnq.size() || nodeEnq[(size_t)cb] < 0 || enqFuel <= 0 || plan) return;
+		--enqFuel;
+		const int ak = nodeEnq[(size_t)cb] & 0xff, key = (nodeEnq[(size_t)cb] >> 8) & 1;
+		MEv e;
+		e.serial = nextSerial++;
+		e.key = key;
+		e.proto = impl->protoOfArgs(ak);
+		impl->enqueue(key, ak, e.serial, 1000 + cb, e.args);
+		pending.push_back(e);
+		log << "(re-enq #" << e.serial << " p" << e.proto << ")";
+		if(! frames.empty() && frames.back().isIf) {
+			const PFrame & f = frames.back();
+			for(size_t i = 0; i < f.batch.size(); ++i) if(! (f.predMask & (1 << f.batch[i].proto)) || (f.examined.count((int)i) && ! f.approved.count((int)i))) enqueuedDuringProcessIfWithLeftovers = true;
 		}
 	}
 	bool onPred(const Summary & s) {
@@ -459,17 +481,18 @@ struct Interp
 		const int key = op.a & 1;
 		switch(op.kind) {
 		case H_ADD: {
-			int kind = ((op.b % impl->callableKinds()) + impl->callableKinds()) % impl->callableKinds();
+			int kind = (((op.b & 63) % impl->callableKinds()) + impl->callableKinds()) % impl->callableKinds();
 			int proto = impl->protoOfCallable(kind);
+			const int enq = (op.b >= 128 && op.b < 256) ? ((((op.c >> 4) % impl->argKinds()) + impl->argKinds()) % impl->argKinds()) | ((op.b >> 6) & 1) << 8 : -1;
 			int how = ((op.c % 3) + 3) % 3;
 			int before = nodeKey.empty() ? -1 : (op.c >> 2) % (int)nodeKey.size();
 			int node = (int)nodeKey.size();
-			nodeKey.push_back(key); nodeProto.push_back(proto);
+			nodeKey.push_back(key); nodeProto.push_back(proto); nodeEnq.push_back(enq);
 			if(how == 0) lists[key][proto].append(node);
 			else if(how == 1) lists[key][proto].prepend(node);
 			else {
 				// a handle of another prototype (or another event) is not in this prototype's list: append at the back
-				if(before >= 0 && nodeKey[before] != key) { nodeKey.pop_back(); nodeProto.pop_back(); log << "(skip-foreign-key)"; break; }
+				if(before >= 0 && nodeKey[before] != key) { nodeKey.pop_back(); nodeProto.pop_back(); nodeEnq.pop_back(); log << "(skip-foreign-key)"; break; }
 				lists[key][proto].insertBefore(node, before);
 			}
 			impl->add(key, kind, how, before, node);
@@ -653,7 +676,7 @@ struct Interp
 		if(! failed) {
 			// final drain
 			Op d; d.kind = H_PROCESS;
-			for(int guard = 0; guard < 4 && ! failed && ! pending.empty(); ++guard) execOp(d);
+			for(int guard = 0; guard < 10 && ! failed && ! pending.empty(); ++guard) execOp(d);
 			if(! failed && ! impl->emptyQ()) fail("heter.empty.final", "C14", "queue not empty after the final drain");
 			for(int k = 0; k < kKeys && ! failed; ++k) for(int p = 0; p < impl->protoCount() && ! failed; ++p) {
 				if(! impl->canEnumerate(p)) continue;
@@ -685,7 +708,7 @@ Grammar makeGrammar(const std::string &)
 	top.maxOps = 70;
 	const ArgSpec key(0, 1), kind(0, 11), val(0, 29999);
 	top.kinds = {
-		{ H_ADD, "addListener", 16, key, kind, ArgSpec(0, 200), -1, 0 },
+		{ H_ADD, "addListener", 16, key, ArgSpec(0, 255), ArgSpec(0, 200), -1, 0 }, // b: callable kind (low 6 bits), >= 128: the listener enqueues when it runs
 		{ H_REMOVE, "removeListener", 4, key, ArgSpec(0, 60), ArgSpec(0, 0), -1, 0 },
 		{ H_DISPATCH, "dispatch", 8, key, kind, val, -1, 0 },
 		{ H_ENQ, "enqueue", 30, key, kind, val, -1, 0 },
@@ -728,6 +751,7 @@ Verdict runOnce(const Program & p, const std::string & prop, FaultPlan * plan)
 		cls(in.foreignPending, "processIf_with_foreign_prototype_pending");
 		cls(in.recycledAcross, "slot_recycled_across_prototypes");
 		cls(in.firstMatch, "argument_kind_selecting_by_conversion_or_first_match");
+		cls(in.enqueuedDuringProcessIfWithLeftovers, "listener_enqueued_during_processIf_that_left_events");
 		v.nontrivial = in.foreignPending && in.recycledAcross;
 		const std::string full = in.log.str();
 		v.trace.assign(full, 0, std::min<size_t>(full.size(), 4000));
